@@ -783,6 +783,10 @@ def _value_rejections(prog, cg, f, encoder_side=False):
             ptrish = any(('*' in (y.get('type') or '') and y.get('kind') in ('DeclRefExpr', 'ImplicitCastExpr'))
                          for y in walk(cond))
             seen_cmp = set()
+            # std::adjacent_find(first, last, pred): pred is applied to every pair of neighbouring elements
+            neighbours = any(z.get('kind') == 'CallExpr' and
+                             (strip(children(z)[0]).get('referencedDecl') or {}).get('name') == 'adjacent_find'
+                             for z in xwalk(cond))
             for y in xwalk(cond):
                 if y.get('kind') != 'BinaryOperator' or y.get('opcode') not in ('<', '<=', '>', '>=', '==', '!='):
                     continue
@@ -790,6 +794,14 @@ def _value_rejections(prog, cg, f, encoder_side=False):
                     continue
                 seen_cmp.add(id(y))
                 a, b = children(y)
+                if neighbours and y.get('opcode') in ('<', '<=', '>', '>='):
+                    pa = {(z.get('referencedDecl') or {}).get('id') for z in walk(a)
+                          if z.get('kind') == 'DeclRefExpr' and (z.get('referencedDecl') or {}).get('kind') == 'ParmVarDecl'}
+                    pb = {(z.get('referencedDecl') or {}).get('id') for z in walk(b)
+                          if z.get('kind') == 'DeclRefExpr' and (z.get('referencedDecl') or {}).get('kind') == 'ParmVarDecl'}
+                    if pa and pb and pa != pb:
+                        out.append(('order', y, g))     # a member of one neighbour against a member of the other
+                        continue
                 subs = [z for z in xwalk(y) if z.get('kind') in ('CXXOperatorCallExpr', 'ArraySubscriptExpr')]
                 idx = []
                 for z in subs:
